@@ -134,6 +134,7 @@ type lsStats struct {
 	Forwards, ChainedForwards     int
 	Renames                       int
 	MaxInFlightAtExit             int
+	FlushOlderUnexecuted          bool // at some flush an instruction older than the flushing branch had not executed yet
 	LostInstructions              int
 }
 
@@ -218,6 +219,12 @@ func buildDyn(c config, log []risc.VerifRec) ([]dynIns, lsStats, string) {
 				}
 				continue
 			}
+			for k := 0; k < bi; k++ {
+				// exec events are attached in log order, so Exec == -1 means "not executed when the flush happened"
+				if !dyn[k].Squashed && dyn[k].Exec == -1 {
+					st.FlushOlderUnexecuted = true
+				}
+			}
 			for k := bi + 1; k < len(dyn); k++ {
 				dyn[k].Squashed = true
 			}
@@ -294,6 +301,10 @@ func lockstep(c config, p rProg, ref *refState, obs *observation) lsResult {
 	res.Stats = st
 	res.Dyn = dyn
 	res.Mech = mechanismSignatures(p, dyn, obs)
+	if st.FlushOlderUnexecuted {
+		// MVP-6.0's flush resets every execute unit and the control unit's queue, whatever their age
+		res.Mech = append(res.Mech, "flush-with-older-unexecuted")
+	}
 	// survivors in program order
 	var surv []int
 	for i := range dyn {
@@ -447,7 +458,19 @@ func lockstep(c config, p rProg, ref *refState, obs *observation) lsResult {
 				}
 				timing += "}"
 			}
-			res.Mech = append(res.Mech, commitMechanisms(p, ref, dyn, surv, obs, in.srcRegs(), k)...)
+			cm := commitMechanisms(p, ref, dyn, surv, obs, in.srcRegs(), k)
+			if strings.HasPrefix(res.Sub, "stale-operand(") && len(cm) == 0 {
+				// Nothing in the event log supports an older value (no commit in between). The same bits - for a
+				// branch: the same decision - can often be produced by a wrong-path or a younger value as well;
+				// those readings have their own mechanisms and findings, so they are preferred here.
+				explainNoStale = true
+				alt := explain(p, ref, k, got, obs.Log[d.Exec].Mem, squashedRegVals(dyn, obs))
+				explainNoStale = false
+				if strings.HasPrefix(alt, "wrong-path-operand") || strings.HasPrefix(alt, "future-operand") {
+					res.Sub = alt
+				}
+			}
+			res.Mech = append(res.Mech, cm...)
 			res.Detail = fmt.Sprintf("step %d pc=%d (%s): reference %s, machine %s [%s]%s", k, step.Pc, in.Text, want, got, res.Sub, timing)
 			return res
 		}
@@ -613,8 +636,11 @@ func explain(p rProg, ref *refState, k int, got effect, gotMem []int8, wrongPath
 		cs := []cand{{cur, 0, 0}}
 		vals, _ := hist(r)
 		vals = append(vals, initial(r))
-		for age := 1; age < len(vals) && age <= 12 && !explainNoStale; age++ {
-			cs = append(cs, cand{vals[age], 1, age})
+		for age := 1; age < len(vals) && !explainNoStale; age++ {
+			// up to 12 writes back, and always the value the register had before the program started
+			if age <= 12 || age == len(vals)-1 {
+				cs = append(cs, cand{vals[age], 1, age})
+			}
 		}
 		for _, v := range wrongPath[r] {
 			cs = append(cs, cand{v, 3, 0})
